@@ -32,7 +32,8 @@ ASSUMPTIONS = [
     "option names, subcommand names, dest and 'cfg' are pairwise different inside one parser (wf_parser)",
 ]
 EXHAUSTIVE = {"quick": False, "thorough": False}
-FINDING_CLASSES = {1: "falsy-subcommand-name-keeps-all-sections", 2: "cfg-naming-other-subcommand-drops-settings"}
+FINDING_CLASSES = {1: "falsy-subcommand-name-keeps-all-sections", 2: "cfg-naming-other-subcommand-drops-settings",
+                   3: "env-mapping-ignored-by-handle-subcommands"}
 
 # Which tree is under test?  coq/Corr/C17Judge.v has one judge per model variant (Model/C17Subcmd.v `variant`):
 #   judge              the pinned tree, findings 1 and 2 guarded (classes 1, 2)
@@ -71,15 +72,31 @@ def translate():
     tests = [ast.unparse(n.test) for n in ast.walk(fn) if isinstance(n, ast.If)]
     falsy_fixed = _FIXED_MEMBER_TEST in tests and _ORIG_MEMBER_TEST not in tests
     cfg_fixed = _FIXED_REMOVE_TEST in tests and _ORIG_REMOVE_TEST not in tests
-    JUDGE = {(False, False): "judge", (True, False): "judge_fixed_falsy",
-             (False, True): "judge_fixed_cfg", (True, True): "judge_fixed_both"}[(falsy_fixed, cfg_fixed)]
+    # handle_subcommands: does `subparser.parse_env(...)` get the caller's environment mapping (keyword env)?
+    hs = None
+    for node in ast.walk(tree):
+        if isinstance(node, ast.ClassDef) and node.name == "_ActionSubCommands":
+            for it in node.body:
+                if isinstance(it, ast.FunctionDef) and it.name == "handle_subcommands":
+                    hs = it
+    if hs is None:
+        raise TieBroken("_ActionSubCommands.handle_subcommands not found in %s" % path, witness=None)
+    penv_calls = [n for n in ast.walk(hs) if isinstance(n, ast.Call) and isinstance(n.func, ast.Attribute)
+                  and n.func.attr == "parse_env"]
+    envmap_fixed = bool(penv_calls) and all(any(k.arg == "env" for k in c.keywords) for c in penv_calls)
+    g = lambda b: "true" if b else "false"
+    JUDGE = "judge_v {| fx_falsy := %s; fx_cfg := %s; fx_envmap := %s |}" % (g(falsy_fixed), g(cfg_fixed), g(envmap_fixed))
     if JUDGE_OVERRIDE:
         JUDGE = JUDGE_OVERRIDE
-    return {"get_subcommands_if_tests": tests, "judge": JUDGE}
+    return {"get_subcommands_if_tests": tests,
+            "handle_subcommands_parse_env_keywords": [[k.arg for k in c.keywords] for c in penv_calls], "judge": JUDGE}
 
 
 OPTN = ["x", "y", "z", "w", "v", "u"]
 SUBN = ["a", "b", "c", "d", "e", "f"]
+# subcommand names that are also attributes / methods of jsonargparse.Namespace (or argparse.Namespace): whatever looks a
+# section up by attribute instead of by key finds the bound method; these must behave like any other name
+SUBN_ATTR = ["get", "items", "keys", "values", "update", "clone", "pop", "as_dict"]
 DESTS = ["subcommand", "cmd", "sel"]
 
 
@@ -94,7 +111,7 @@ def gen_parser(rng, levels, top=True):
         P["req"] = rng.random() < 0.6
         P["dest"] = rng.choice(DESTS)
         n = rng.choice([1, 2, 2, 3, 3, 4])
-        names = rng.sample(SUBN, n)
+        names = rng.sample(SUBN + SUBN_ATTR if rng.random() < 0.35 else SUBN, n)
         for nm in names:
             sub_levels = levels - 1 if rng.random() < 0.7 else max(0, levels - 2)
             if levels - 1 > 0 and nm == names[0]:
@@ -163,12 +180,17 @@ def gen_input(rng, P):
     # what each level reads from it - under every way of switching it on or off - is exercised at depth >= 2
     env = gen_cfg(rng, P, rng.choice([0.5, 0.8]), for_env=True) if rng.random() < 0.5 else None
     r = rng.random()
-    if r < 0.5:
+    if r < 0.45:
         entry = {"kind": "args", "argv": gen_argv(rng, P, rich)}
-    elif r < 0.75:
+    elif r < 0.65:
         entry = {"kind": "object", "cfg": gen_cfg(rng, P, rich)}
-    else:
+    elif r < 0.85:
         entry = {"kind": "string", "cfg": gen_cfg(rng, P, rich)}
+    else:
+        # parser.parse_env(mapping): the environment is an explicit mapping; os.environ is clean ("env": []) or holds
+        # other variables of the same prefix (decoys) that this parse must not see
+        entry = {"kind": "env", "map": gen_cfg(rng, P, rng.choice([0.5, 0.8]), for_env=True)}
+        env = gen_cfg(rng, P, rng.choice([0.5, 0.8]), for_env=True) if rng.random() < 0.35 else []
     return env, entry
 
 
@@ -181,7 +203,10 @@ def generate(rng, tier):
         for _ in range(12):
             env, entry = gen_input(rng, P)
             case = {"parser": P, "env": env, "entry": entry}
-            if env is not None:
+            if entry["kind"] == "env":
+                # parse_env reads the environment whatever default_env says: only the flag the tree is built with varies
+                case["envmode"] = rng.choice(["ctor", "setter", "off", "off_setter"])
+            elif env is not None:
                 # how environment parsing is switched on (or off, with the variables present all the same)
                 case["envmode"] = rng.choice(["ctor", "ctor", "setter", "setter", "arg", "off_setter", "off"])
             cases.append(case)
@@ -252,6 +277,8 @@ ENV_ON_MODES = ("ctor", "setter", "arg")
 
 def env_on(case):
     """is the environment to be read?  (the variables are in os.environ whenever case["env"] is not None)"""
+    if case["entry"]["kind"] == "env":
+        return True   # parse_env(mapping): i_env is what os.environ holds (possibly nothing)
     return case["env"] is not None and case.get("envmode", "ctor") in ENV_ON_MODES
 
 
@@ -261,9 +288,11 @@ def term(case, obs):
         entry = "EArgs %s" % t_argv(e["argv"])
     elif e["kind"] == "object":
         entry = "EObject %s" % t_cobj(e["cfg"])
+    elif e["kind"] == "env":
+        entry = "EEnv %s" % t_cobj(e["map"])
     else:
         entry = "EString %s" % t_cobj(e["cfg"])
-    env = "(Some %s)" % t_cobj(case["env"]) if env_on(case) else "None"
+    env = "(Some %s)" % t_cobj(case["env"] or []) if env_on(case) else "None"
     o = "(Some %s)" % t_ns(obs["ok"]) if "ok" in obs else "None"
     return "{| c_parser := %s; c_input := {| i_env := %s; i_entry := %s |}; c_obs := %s |}" % (
         t_parser(case["parser"]), env, entry, o)
@@ -285,8 +314,9 @@ def _argv_mentions(A):
 
 def nontrivial_key(case, obs):
     P, e = case["parser"], case["entry"]
-    m = (env_on(case) and _mentions(case["env"], P))
-    m = m or (e["kind"] == "args" and _argv_mentions(e["argv"])) or (e["kind"] != "args" and _mentions(e["cfg"], P))
+    m = (env_on(case) and _mentions(case["env"] or [], P))
+    m = m or (e["kind"] == "args" and _argv_mentions(e["argv"])) or (e["kind"] == "env" and _mentions(e["map"], P))
+    m = m or (e["kind"] in ("object", "string") and _mentions(e["cfg"], P))
     if not m:
         return None
     return hashlib.sha1(json.dumps([case, obs], sort_keys=True).encode()).hexdigest()
@@ -304,7 +334,10 @@ def category(case, obs):
 def describe(case, obs):
     e = case["entry"]
     d = {"parser_tree": case["parser"], "environment_read": env_on(case)}
-    if case["env"] is not None:
+    if e["kind"] == "env":
+        d["os.environ"] = _render_env(case["env"] or [])
+        d["tree_built_with"] = case.get("envmode", "ctor")
+    elif case["env"] is not None:
         d["environment"] = _render_env(case["env"])
         d["environment_switch"] = {"ctor": "root built with default_env=True",
                                    "setter": "tree built, then root.default_env = True",
@@ -315,6 +348,8 @@ def describe(case, obs):
         d["call"] = "parse_args(%r)" % (_render_argv(e["argv"]),)
     elif e["kind"] == "object":
         d["call"] = "parse_object(%s)" % json.dumps(_obj(e["cfg"]))
+    elif e["kind"] == "env":
+        d["call"] = "parse_env(%r)  # explicit mapping; os.environ as shown" % (_render_env(e["map"]),)
     else:
         d["call"] = "parse_string(%r)" % json.dumps(_obj(e["cfg"]))
     d["observed"] = obs
@@ -382,7 +417,16 @@ def _shrink_parser(P):
 
 def shrink(case):
     e = case["entry"]
-    if case["env"] is not None:
+    if e["kind"] == "env":
+        if case["env"]:
+            yield dict(case, env=[])
+            for w in _drop_each(case["env"]):
+                yield dict(case, env=w)
+        if case.get("envmode", "ctor") != "ctor":
+            yield dict(case, envmode="ctor")
+        for w in _drop_each(e["map"]):
+            yield dict(case, entry={"kind": "env", "map": w})
+    elif case["env"] is not None:
         yield dict(case, env=None)
         if case.get("envmode", "ctor") != "ctor":
             yield dict(case, envmode="ctor")
@@ -391,7 +435,7 @@ def shrink(case):
     if e["kind"] == "args":
         for a in _shrink_argv(e["argv"]):
             yield dict(case, entry={"kind": "args", "argv": a})
-    else:
+    elif e["kind"] != "env":
         for w in _drop_each(e["cfg"]):
             yield dict(case, entry={"kind": e["kind"], "cfg": w})
     for P in _shrink_parser(case["parser"]):
